@@ -257,12 +257,46 @@ func cmdCheck(args []string) int {
 		tr.entrySt = newState()
 		tr.addAxiomsFor(lm.Pkg)
 		env := &Env{t: tr, c: tr.c, vars: map[string]*SVal{}, locs: map[string]*Loc{}, st: tr.entrySt, old: tr.entrySt, pkg: tr.pkgByName(lm.Pkg)}
-		g, err := env.boolExpr(lm.E)
+		// a top-level forall is proved for arbitrary named constants, so that a refutation prints its witness
+		body := lm.E
+		var lemmaInputs []inputTerm
+		var guards []Term
+		if q, ok := body.(*EQuant); ok && q.Forall {
+			skolem := true
+			for _, qv := range q.Vars {
+				ty, err := env.resolveType(qv.Type)
+				if err != nil || ty.Go == nil {
+					skolem = false
+					break
+				}
+				if srt := tr.c.sortOfS(ty); srt != SInt && srt != SStr && srt != SBool {
+					skolem = false
+					break
+				}
+			}
+			if skolem {
+				for _, qv := range q.Vars {
+					ty, _ := env.resolveType(qv.Type)
+					nm := tr.c.declConst("lemma!"+qv.Name, tr.c.sortOfS(ty))
+					env.vars[qv.Name] = &SVal{nm, ty}
+					env.bound = addBound(env.bound, qv.Name)
+					if g := tr.c.typeFact(ty.Go, nm); g.S != "true" {
+						guards = append(guards, g)
+					}
+					lemmaInputs = append(lemmaInputs, inputTerm{qv.Name, nm})
+				}
+				body = q.Body
+			}
+		}
+		g, err := env.boolExpr(body)
 		if err != nil {
 			undecided = append(undecided, fmt.Sprintf("lemma %s: %v", lm.Name, err))
 			continue
 		}
-		o := &Obligation{NAssert: -1, Name: lm.Pkg + ".lemma." + lm.Name, Kind: "lemma", Fn: tr.key, Pos: fmt.Sprintf("%s:%d", lm.File, lm.Line), Reach: tTrue, Goal: g,
+		for _, gd := range guards {
+			tr.c.assert(gd)
+		}
+		o := &Obligation{NAssert: -1, Inputs: lemmaInputs, Name: lm.Pkg + ".lemma." + lm.Name, Kind: "lemma", Fn: tr.key, Pos: fmt.Sprintf("%s:%d", lm.File, lm.Line), Reach: tTrue, Goal: g,
 			Desc: "lemma over the contracts: " + lm.Text, Expect: "unsat", Context: tr.c, Prop: lm.Serves}
 		obls = append(obls, o)
 		for tb := range tr.trusted {
